@@ -13,6 +13,8 @@ THEOREMS = [
     ("EG.props.C09", "C09_mqtt_single"),
     ("EG.props.C09", "C09_mqtt_multi"),
     ("EG.props.C09", "C09_unmatched_url_unlimited"),
+    ("EG.props.C09", "C09_url_rule_match_spec"),
+    ("EG.props.C09", "C09_unmatched_request_unlimited"),
     ("EG.props.C09", "C09_reload_keeps_state"),
     ("EG.props.C09", "C09_refuted_rl_inherit_steals_limiter"),
 ]
@@ -84,6 +86,7 @@ def encode(c):
         specs = L([_fspec(s) for s in i["specs"]])
         steps = o.get("steps") or []
         ops = []
+        rows = []
         for op, st in zip(i["ops"], steps):
             if op["op"] == "init":
                 ops.append(C("IInit", Nat(op["spec"]), Z(op["dt"]), L([Z(x) for x in st.get("refs") or []])))
@@ -94,8 +97,10 @@ def encode(c):
                 ops.append(C("IInherit", Nat(op["spec"]), Nat(st["gen"]), Z(op["dt"]), L([Z(x) for x in refs])))
             else:
                 ops.append(C("IHandle", Nat(st["gen"]), Z(op["dt"]), L([B(x) for x in st.get("matches") or []]), Z(st["code"])))
+                rows.append(Rec(ur_spec=Nat(st.get("sidx", 0)), ur_method=S(op["method"]), ur_path=S(st.get("upath", op["path"])),
+                                ur_rx=L([B(x) for x in st.get("rx") or []]), ur_obs=L([B(x) for x in st.get("matches") or []])))
         bad = bool(o.get("bad")) or len(steps) != len(i["ops"])
-        return Rec(fc_specs=specs, fc_ops=L(ops), fc_bad=B(bad))
+        return Rec(fc_specs=specs, fc_ops=L(ops), fc_bad=B(bad), fc_rows=L(rows))
     raise ValueError(c["grp"])
 
 
